@@ -97,7 +97,9 @@ func addAP(t *rapid.T, m *ref.SNode) {
 }
 
 func addNotes(t *rapid.T, m *ref.SNode, st *gen.Style) {
-	texts := []string{"note", "some text 1", "x - y", "a {b} c", "ünï"}
+	texts := []string{"note", "some text 1", "x - y", "a {b} c", "ünï",
+		// white space that is not a blank of the schema language belongs to the note text
+		"\u00a0price in EUR\u00a0", "\u3000wide", "tail\u2003"}
 	if st.MultiLine {
 		// inside /* */ a '#' is note text, not a user comment
 		texts = append(texts, "the # of items", "see #42 (c# backlog)", "# leading")
@@ -140,6 +142,7 @@ func style(t *rapid.T) *gen.Style {
 	st.PropAfterArray = rapid.IntRange(0, 3).Draw(t, "propAfterArray") == 0
 	st.ColonGap = rapid.SampledFrom([]int{0, 0, 0, 1, 2, 3}).Draw(t, "colonGap")
 	st.TightAnn = rapid.IntRange(0, 4).Draw(t, "tightAnn") == 0
+	st.SplitAnn = rapid.SampledFrom([]int{0, 0, 0, 1, 2}).Draw(t, "splitAnn")
 	st.StrayNotes = rapid.SampledFrom([]int{0, 0, 1, 2, 3}).Draw(t, "strayNotes")
 	if st.JoinLines {
 		st.Comments, st.EmptyAnn, st.StrayNotes = 0, 0, 0 // joining lines only works where nothing else is written at the ends of lines
